@@ -14,8 +14,12 @@ commit and is shared with C02. This file adds the flagged family on top of it wi
   Off = the candidate repair: the selector branch is skipped (`len(newData) > 0`).
 * `inplaceAltersFlag` (C04, clause 1b) as written the in-place paths of a remote write (`copyToSelectedData`,
   `copyToAllData`, `RemoveElementFromItem` under `deleteFilteredData`) copy resp. clear the `writecheck` field like
-  any other. Off = the candidate repair `patches/C04-flag-altered-candidate.patch`: on a remote write the flag the
+  any other. Off = the candidate repair `fixes/c04/01-remote-write-keeps-changeability-flag.patch`: on a remote write the flag the
   item had is put back.
+
+* `deleteStrict` (C04b, delete path) as written `deleteFilteredData` reports failure of a remote delete as soon as
+  ANY stored item is not writable. Off = the repair `fixes/c04/02-…`: failure only for an unwritable item the
+  filter addresses (no selector: every item; else the items the selector matches); other unwritable items are kept.
 
 `updateListF_asWritten` proves that the member with all flags on IS `Spine.updateList`, so every theorem about
 `updateList` is a theorem about the member the driver runs against the unchanged tree.
@@ -27,15 +31,37 @@ structure UCfg where
   selNilPanics : Bool := true
   emptySelPanics : Bool := true
   inplaceAltersFlag : Bool := true
+  deleteStrict : Bool := true
 deriving Repr, DecidableEq, Inhabited
 
 def UCfg.asWritten : UCfg := {}
 
-/-- SelectorMatch of the family: the repaired member answers "no match" where the code as written panics -/
+/-- SelectorMatch with the nil check of the repair (`itemF.Kind() != reflect.Ptr || itemF.IsNil()` ⇒ no match),
+    field by field in the order of the code. An entry of `selMap` inside the item (`< n`) is compared; the entry
+    `n` (the item field is not a pointer) and any other index the item does not carry is "no match". An entry
+    `n + 1 + i` stands for a selector field of a NON-COMPARABLE struct type whose item field is `i` and whose values
+    the code compares with `!=`: absent ⇒ no match, present ⇒ the comparison panics. (A tree that compares
+    with `reflect.DeepEqual` never gets such an entry: the C02 harness then classifies the field as an ordinary
+    compared field. In `selectorMatch`, the code as written, the same entry is out of range and panics always —
+    which is what the unrepaired code does for such a field.) -/
+def selectorMatchR.go (sh : Shape) (it : Item) : Nat → List (Option Val) → Outcome Bool
+  | _, [] => .ok true
+  | j, none :: rest => selectorMatchR.go sh it (j + 1) rest
+  | j, some v :: rest => match (sh.selMap[j]?).join with
+    | none => selectorMatchR.go sh it (j + 1) rest
+    | some i =>
+      if sh.n < i then
+        match it.get (i - sh.n - 1) with
+        | none => .ok false
+        | some _ => .panic "SelectorMatch:uncomparable"
+      else match it.get i with
+        | none => .ok false
+        | some w => if w != v then .ok false else selectorMatchR.go sh it (j + 1) rest
+
+/-- SelectorMatch of the family: the repaired member answers "no match" where the code as written panics on an
+    item that does not carry the selected field -/
 def selectorMatchF (c : UCfg) (sh : Shape) (sel it : Item) : Outcome Bool :=
-  match selectorMatch sh sel it with
-  | .panic s => if c.selNilPanics then .panic s else .ok false
-  | .ok b => .ok b
+  if c.selNilPanics then selectorMatch sh sel it else selectorMatchR.go sh it 0 sel
 
 /-- put back the flag the item had (`restoreWriteCheck` of the candidate repair) -/
 def restoreFlag (sh : Shape) (saved x : Item) : Item :=
@@ -112,9 +138,17 @@ def deleteFilteredF.go (c : UCfg) (sh : Shape) (remote : Bool) (f : Filter) :
   | [] => .ok ([], [], true)
   | x :: xs =>
     if !writeAllowed sh x && remote then
-      match deleteFilteredF.go c sh remote f xs with
-      | .panic s => .panic s
-      | .ok (ip, out, _) => .ok (x :: ip, out, false)
+      if c.deleteStrict then
+        match deleteFilteredF.go c sh remote f xs with
+        | .panic s => .panic s
+        | .ok (ip, out, _) => .ok (x :: ip, out, false)
+      else
+        match hitOf c sh f x with
+        | .panic s => .panic s
+        | .ok hit =>
+          match deleteFilteredF.go c sh remote f xs with
+          | .panic s => .panic s
+          | .ok (ip, out, ok) => .ok (x :: ip, x :: out, ok && !hit)
     else
       match hitOf c sh f x with
       | .panic s => .panic s
@@ -177,8 +211,44 @@ def updateListF (c : UCfg) (sh : Shape) (remote : Bool) (ex nw : List Item) (fp 
 
 theorem selectorMatchF_asWritten (sh : Shape) (sel it : Item) :
     selectorMatchF .asWritten sh sel it = selectorMatch sh sel it := by
-  unfold selectorMatchF
-  cases selectorMatch sh sel it <;> rfl
+  simp [selectorMatchF, UCfg.asWritten]
+
+/-- what the repaired member was before the entry `n + 1 + i` existed: every panic of the code as written
+    becomes "no match" -/
+def panicIsNoMatch : Outcome Bool → Outcome Bool
+  | .panic _ => .ok false
+  | .ok b => .ok b
+
+/-- for every shape without an entry beyond `n` (all shapes of the C04 / C11 harnesses, and every C02 shape unless
+    the tree compares non-comparable structs with `!=` behind a nil check) the repaired member is exactly
+    "panic ⇒ no match" -/
+theorem selectorMatchR_go_eq (sh : Shape) (it : Item)
+    (h : ∀ (j i : Nat), (sh.selMap[j]?).join = some i → i ≤ sh.n) : ∀ (rest : List (Option Val)) (j : Nat),
+    selectorMatchR.go sh it j rest = panicIsNoMatch (selectorMatch.go sh it j rest)
+  | [], _ => rfl
+  | none :: rest, j => by
+    simp only [selectorMatchR.go, selectorMatch.go]
+    exact selectorMatchR_go_eq sh it h rest (j + 1)
+  | some v :: rest, j => by
+    have ih := selectorMatchR_go_eq sh it h rest (j + 1)
+    simp only [selectorMatchR.go, selectorMatch.go]
+    cases hm : (sh.selMap[j]?).join with
+    | none => simpa using ih
+    | some i =>
+      have hi : ¬ sh.n < i := Nat.not_lt.mpr (h j i hm)
+      simp only [hi, if_false]
+      cases it.get i with
+      | none => rfl
+      | some w =>
+        by_cases hwv : w = v
+        · subst hwv; simpa using ih
+        · simp [hwv, panicIsNoMatch]
+
+theorem selectorMatchF_repaired (c : UCfg) (hc : c.selNilPanics = false) (sh : Shape) (sel it : Item)
+    (h : ∀ (j i : Nat), (sh.selMap[j]?).join = some i → i ≤ sh.n) :
+    selectorMatchF c sh sel it = panicIsNoMatch (selectorMatch sh sel it) := by
+  simp only [selectorMatchF, hc, Bool.false_eq_true, if_false]
+  exact selectorMatchR_go_eq sh it h sel 0
 
 theorem keepsFlag_asWritten (remote : Bool) : keepsFlag .asWritten remote = false := by
   simp [keepsFlag, UCfg.asWritten]
@@ -216,8 +286,9 @@ theorem deleteFilteredF_go_asWritten (sh : Shape) (remote : Bool) (f : Filter) (
   induction ex with
   | nil => rfl
   | cons x xs ih =>
+    have hds : UCfg.asWritten.deleteStrict = true := rfl
     simp only [deleteFilteredF.go, deleteFiltered.go, hitOf, delItem, delKeep, selectorMatchF_asWritten,
-      keepsFlag_asWritten, Bool.false_eq_true, if_false, ih]
+      keepsFlag_asWritten, Bool.false_eq_true, if_false, hds, if_true, ih]
     split
     · cases deleteFiltered.go sh remote f xs with
       | panic s => rfl
